@@ -93,6 +93,8 @@ pub(crate) struct Conn {
     pub(crate) join: Option<tokio::task::JoinHandle<()>>,
     pub(crate) counter_rx: Arc<MessageCounter>,
     pub(crate) daemon_open: Option<bgp::Open>,
+    /// (code, subcode) of a NOTIFICATION the daemon sent instead of completing the OPEN exchange
+    pub(crate) open_notification: Option<(u8, u8)>,
     pub(crate) from: IpAddr,
     /// the session's per-family prefix-limit counters (max, counter)
     pub(crate) limits: Vec<(Family, u32, Arc<std::sync::atomic::AtomicU64>)>,
@@ -181,7 +183,7 @@ pub(crate) async fn connect(d: &Daemon, from: IpAddr, role: crate::fsm::Role) ->
     let global = d.global.clone();
     let active_tx = d.active_tx.clone();
     let join = tokio::spawn(async move { session.run(global, active_tx).await });
-    Ok(Some(Conn { stream: Some(client), rx: bytes::BytesMut::with_capacity(8192), codec: bgp::PeerCodec::new(), join: Some(join), counter_rx, daemon_open: None, from, limits }))
+    Ok(Some(Conn { stream: Some(client), rx: bytes::BytesMut::with_capacity(8192), codec: bgp::PeerCodec::new(), join: Some(join), counter_rx, daemon_open: None, open_notification: None, from, limits }))
 }
 
 impl Conn {
@@ -241,7 +243,11 @@ impl Conn {
         loop {
             match self.read_msg().await? {
                 Some(bgp::ParsedMessage::Keepalive) => break,
-                Some(bgp::ParsedMessage::Notification(_)) | None => return Ok(false),
+                Some(bgp::ParsedMessage::Notification(n)) => {
+                    self.open_notification = Some((n.notification_code(), n.notification_subcode()));
+                    return Ok(false);
+                }
+                None => return Ok(false),
                 Some(_) => {}
             }
         }
